@@ -7,6 +7,7 @@ from vlib import boot
 from vlib.engine import Outcome
 
 PROPERTY = 'C16'
+LEVEL = 'fault_enumeration'
 RULE = ('A bundle with a generated plaintext payload (0..5000 octets incl. empty) and an extension block gets a Block '
         'Confidentiality Block over {payload, extension block, both} either (A) from a real source agent with a policy '
         'for COSE_Encrypt0 (A128GCM / A256GCM direct key) or COSE_Encrypt with an A256KW wrapped content key, a fresh IV '
